@@ -4,7 +4,7 @@
    a sample of every run (the in-kernel sample), so the extraction itself is checked. *)
 From Coq Require Import List Ascii String Bool Arith NArith ZArith.
 Require Import Show.
-Require V1 V5 V6 V3 V11.
+Require V1 V5 V6 V3 V11 A1 D3 M6 M6b.
 Import ListNotations.
 Open Scope string_scope.
 Open Scope list_scope.
@@ -60,7 +60,80 @@ Definition run_version (op : string) (a : list str) : option str :=
   else if op =? "vsorted" then Some (show_bool (nondecreasing (triples a)))
   else None.
 
+(* ---- dependency: C04 C05 C06 ---- *)
+Definition show_arch (a : A1.arch) : str := unwords [hx (A1.abi a); hx (A1.os a); hx (A1.cpu a)].
+Definition show_archset (a : D3.archset) : str :=
+  unwords [show_bool (D3.a_not a); show_list (fun x => lit "( " ++ show_arch x ++ lit " )") (D3.a_list a)].
+Definition show_stage (st : D3.stage) : str := lit "( " ++ show_bool (D3.s_not st) ++ sp1 ++ hx (D3.s_name st) ++ lit " )".
+Definition show_vrel (v : D3.vrel) : str := unwords [hx (D3.v_op v); hx (D3.v_num v)].
+Definition show_possi (p : D3.possi) : str :=
+  unwords [lit "{"; hx (D3.p_name p); show_opt show_arch (D3.p_arch p); show_opt show_archset (D3.p_archs p);
+           show_list (show_list show_stage) (D3.p_stages p); show_opt show_vrel (D3.p_ver p);
+           show_bool (D3.p_subst p); lit "}"].
+Definition show_dep (d : D3.dep) : str := show_list (show_list show_possi) d.
+Definition show_dres (r : D3.outcome D3.dep) : str :=
+  match r with D3.Ok d => lit "ok " ++ show_dep d | D3.Err => lit "err" | D3.OutOfFuel => lit "out-of-fuel" end.
+
+Definition any_s : str := lit "any".
+Definition all_s : str := lit "all".
+Definition m6arch (a b c : str) : M6.arch str := {| M6.abi := a; M6.os := b; M6.cpu := c |}.
+Definition m6_of (a : A1.arch) : M6.arch str := m6arch (A1.abi a) (A1.os a) (A1.cpu a).
+Definition m6set (a : D3.archset) : M6b.archset str :=
+  {| M6b.a_not := D3.a_not a; M6b.a_list := map m6_of (D3.a_list a) |}.
+Definition m6possi (p : D3.possi) : M6b.possi str D3.possi :=
+  {| M6b.p_name := p; M6b.p_archs := m6set (D3.archs_of p); M6b.p_subst := D3.p_subst p |}.
+Fixpoint arch_triples (a : list str) : list (M6.arch str) :=
+  match a with x :: y :: z :: r => m6arch x y z :: arch_triples r | _ => [] end.
+Definition op_of (o : str) : M6b.op :=
+  if D3.seq o (lit ">=") then M6b.OGe else if D3.seq o (lit "<=") then M6b.OLe
+  else if D3.seq o (lit ">>") then M6b.OGt else if D3.seq o (lit "<<") then M6b.OLt
+  else if D3.seq o (lit "=") then M6b.OEq else M6b.OUnknown.
+Definition v3_to_v6 (v : V3.version) : V6.version :=
+  {| V6.epoch := V3.epoch v; V6.upstream := V3.upstream v; V6.revision := V3.revision v |}.
+
+Definition run_dep (op : string) (a : list str) : option str :=
+  let g n := nth_arg n a in
+  if op =? "dparse" then Some (show_dres (D3.parse (g 0)))
+  else if op =? "dstring" then
+    Some (match D3.parse (g 0) with D3.Ok d => lit "ok " ++ hx (D3.dep_string d) | _ => lit "err" end)
+  else if op =? "drt" then
+    Some (match D3.parse (g 0) with
+          | D3.Ok d => lit "ok " ++ hx (D3.dep_string d) ++ sp1 ++ show_dres (D3.parse (D3.dep_string d))
+          | _ => lit "err" end)
+  else if op =? "aparse" then Some (show_arch (A1.parse_arch (g 0)))
+  else if op =? "astring" then Some (hx (A1.arch_string (A1.mk (g 0) (g 1) (g 2))))
+  else if op =? "art" then
+    let x := A1.parse_arch (g 0) in let t := A1.arch_string x in
+    Some (unwords [show_arch x; hx t; show_arch (A1.parse_arch t)])
+  else if op =? "ais" then
+    Some (show_bool (M6.arch_is str D3.seq any_s all_s (m6arch (g 0) (g 1) (g 2)) (m6arch (g 3) (g 4) (g 5))))
+  else if op =? "awild" then Some (show_bool (M6.is_wildcard str D3.seq any_s all_s (m6arch (g 0) (g 1) (g 2))))
+  else if op =? "amatch" then
+    (* not-flag, target triple, then the list's triples *)
+    let set := {| M6b.a_not := arg_bool (g 0); M6b.a_list := arch_triples (skipn 4 a) |} in
+    Some (show_bool (M6b.set_matches str D3.seq any_s all_s set (m6arch (g 1) (g 2) (g 3))))
+  else if op =? "dposs" then
+    Some (match D3.parse (g 0) with
+          | D3.Ok d => lit "ok " ++ show_list (fun p => show_possi (M6b.p_name str D3.possi p))
+                         (M6b.get_possibilities str D3.seq any_s all_s D3.possi (map (map m6possi) d) (m6arch (g 1) (g 2) (g 3)))
+          | _ => lit "err" end)
+  else if op =? "dall" then
+    Some (match D3.parse (g 0) with
+          | D3.Ok d => lit "ok " ++ show_list show_possi (filter (fun p => negb (D3.p_subst p)) (List.concat d))
+          | _ => lit "err" end)
+  else if op =? "dsubst" then
+    Some (match D3.parse (g 0) with
+          | D3.Ok d => lit "ok " ++ show_list show_possi (filter D3.p_subst (List.concat d))
+          | _ => lit "err" end)
+  else if op =? "vsat" then
+    (* operator, number text, then the version (e,u,r) *)
+    Some (show_bool (M6b.satisfied_by V6.version
+            (fun l => option_map v3_to_v6 (V11.parse_u (map ascii_of_nat l))) V6.compare
+            (op_of (g 0)) (map nat_of_ascii (g 1)) (mkv6 (g 2) (g 3) (g 4))))
+  else None.
+
 Definition run (op : string) (hexargs : list str) : str :=
   let a := map unhex hexargs in
   match run_version op a with Some r => r | None =>
-  lit "unknown-op" end.
+  match run_dep op a with Some r => r | None =>
+  lit "unknown-op" end end.
